@@ -109,10 +109,17 @@ class Kit:
                     pattern_descriptors={'cond': gen.wrap([f'c{i}' for i in range(n_cond)], self.cont),
                                          'cat': gen.wrap([i % 2 for i in range(n_cond)], self.cont)})
 
-    def dataset(self, n_cond=4, n_fold=3, n_ch=5, positive=True):
+    def dataset(self, n_cond=4, n_fold=3, n_ch=5, positive=True, zero_mean_rows=False):
         cond = [c for f in range(n_fold) for c in range(n_cond)]
         fold = [f for f in range(n_fold) for c in range(n_cond)]
         m = self.rng.gamma(2.0, 2.0, size=(len(cond), n_ch)) + 0.1 if positive else self.rng.standard_normal((len(cond), n_ch))
+        if zero_mean_rows:
+            # data the user has already centred per observation, with row means that are exactly 0.0 (whole numbers
+            # a, -a, b, -b, ... in random order): the case in which "nothing to subtract" shortcuts apply
+            half = self.rng.integers(1, 9, size=(len(cond), n_ch // 2)).astype(float)
+            m = np.concatenate([half, -half] + ([np.zeros((len(cond), 1))] if n_ch % 2 else []), axis=1)
+            m = np.array([row[self.rng.permutation(n_ch)] for row in m])
+            assert m.shape == (len(cond), n_ch) and not m.mean(axis=1).any()
         return Dataset(m, descriptors={'subj': 's1', 'sess': 2},
                        obs_descriptors={'cond': gen.wrap(cond, self.cont), 'fold': gen.wrap(fold, self.cont),
                                         'lab': gen.wrap([f'k{c}' for c in cond], self.cont)},
@@ -211,7 +218,8 @@ def recipes():
                                 'cv_descriptor': 'fold' if k.variant % 3 == 2 else None, 'remove_mean': bool(k.variant)})
     R['calc_rdm_euclidean'] = lambda k: ([k.dataset()], {'descriptor': [None, 'cond', 'cond'][k.variant % 3],
                                                          'remove_mean': bool(k.variant % 2)})
-    R['calc_rdm_correlation'] = lambda k: ([k.dataset()], {'descriptor': [None, 'cond', 'cond'][k.variant % 3]})
+    R['calc_rdm_correlation'] = lambda k: ([k.dataset(zero_mean_rows=k.variant == 3)],
+                                           {'descriptor': [None, 'cond', 'cond'][k.variant % 3]})
     R['calc_rdm_mahalanobis'] = lambda k: ([k.dataset()], {'descriptor': [None, 'cond', 'cond'][k.variant % 3],
                                                            'noise': gen.spd(k.rng, 5, 10.), 'remove_mean': bool(k.variant % 2)})
     R['calc_rdm_crossnobis'] = lambda k: ([k.dataset(), 'cond'],
@@ -262,7 +270,8 @@ def recipes():
                                       [k.temporal(), k.temporal()] if k.variant == 1 else [k.dataset()]], {})
     R['merge_subsets'] = lambda k: ([[k.dataset(), k.dataset()]], {})
     R['average_dataset'] = lambda k: ([k.dataset()], {})
-    R['average_dataset_by'] = lambda k: ([k.dataset(), 'cond'], {})
+    # variant 3: a descriptor in which every value occurs once (nothing to average)
+    R['average_dataset_by'] = lambda k: ([k.dataset(n_fold=1) if k.variant == 3 else k.dataset(), 'cond'], {})
     for n in ('cov_from_measurements', 'prec_from_measurements', 'cov_from_unbalanced', 'prec_from_unbalanced'):
         R[n] = lambda k: ([k.dataset(n_fold=4, n_ch=3) if k.variant != 2 else [k.dataset(n_fold=4, n_ch=3),
                                                                                  k.dataset(n_fold=4, n_ch=3)], 'cond'],
